@@ -5,7 +5,7 @@ let rec pos_of_zt (z : ZZ.t) : positive =
   if ZZ.equal z ZZ.one then XH
   else if ZZ.is_even z then XO (pos_of_zt (ZZ.shift_right z 1))
   else XI (pos_of_zt (ZZ.shift_right z 1))
-let of_string (s : string) : z =
+let of_string s : z =
   let v = ZZ.of_string s in
   if ZZ.sign v = 0 then Z0 else if ZZ.sign v > 0 then Zpos (pos_of_zt v) else Zneg (pos_of_zt (ZZ.neg v))
 let rec zt_of_pos (p : positive) : ZZ.t =
@@ -13,7 +13,7 @@ let rec zt_of_pos (p : positive) : ZZ.t =
   | XH -> ZZ.one
   | XO q -> ZZ.shift_left (zt_of_pos q) 1
   | XI q -> ZZ.succ (ZZ.shift_left (zt_of_pos q) 1)
-let to_string (z : z) : string =
+let to_string (z : z) =
   match z with
   | Z0 -> "0"
   | Zpos p -> ZZ.to_string (zt_of_pos p)
